@@ -516,6 +516,11 @@ def generate_docs(focus, n, seedval, wd, max_nodes=6, max_depth=4, cfg_extra="")
         r = common.tlc("Build", cfg, wd, simulate=max(1, n // 4), depth=max_nodes * 3 + 4, workers=4,
                        seedval=seedval * 7919 + 1, timeout=1200, heap="2g")
         docs = r.json_lines("CASE")
+        # the workers print in scheduling order: make the order a function of the seed only
+        import json as _json
+        import random as _random
+        docs.sort(key=lambda d: _json.dumps(d, sort_keys=True))
+        _random.Random(seedval).shuffle(docs)
         res_all = [r]
     finally:
         os.unlink(path)
